@@ -12,13 +12,16 @@ from .common import *
 
 NONASCII = {'e_acute': tuple('é'.encode()), 'nbsp': tuple(' '.encode()), 'ideographic_space': tuple('　'.encode())}
 
+TOKENS = {'hash': tuple(b'TXTPP#'), 'hash_run': tuple(b'TXTPP#run'), 'hash_includes': tuple(b'TXTPP#includes ')}
 
 def make_line(ctx, name, n, layout=None):
     """n symbolic ASCII bytes; layout = (pos, key) inserts a concrete non-ASCII char before symbolic byte pos"""
     bs = list(ctx.fresh_bytes(name, n, ASCII_LINE))
     if layout is not None:
-        pos, key = layout
-        bs[pos:pos] = list(NONASCII[key])
+        items = [layout] if not isinstance(layout[0], (list, tuple)) else list(layout)
+        # several insertions: positions refer to the symbolic bytes, applied from the right so that they stay valid
+        for pos, key in sorted(items, key=lambda x: -x[0]):
+            bs[pos:pos] = list(NONASCII[key] if key in NONASCII else TOKENS[key])
     return tuple(bs)
 
 
@@ -26,6 +29,7 @@ def h_detect(m, ctx, n, layout=None):
     it = Interp(m, ctx)
     line = make_line(ctx, 'line', n, layout)
     fn = m.find_method('Directive', 'detect_from')
+    ctx.notes['data'] = {'op': 'detect_from', 'line_syms': [b if isinstance(b, int) else b[1] for b in line]}       # for a panic inside
     got = directive_of(it, it.call_mir(fn, [StrV(line)]))
     want = grammar.classify(ctx, line)
     data = {'line': show_bytes(line), 'line_syms': [b if isinstance(b, int) else b[1] for b in line], 'op': 'detect_from'}
@@ -54,7 +58,7 @@ def h_detect(m, ctx, n, layout=None):
 TYPES = ['Empty', 'Include', 'After', 'Run', 'Tag', 'Temp', 'Write']
 
 
-def h_addline(m, ctx, nws, npre, n, ty, layout=None):
+def h_addline(m, ctx, nws, npre, n, ty, layout=None, prefix_layout=None):
     """arbitrary directive state satisfying the representation invariant of detect_from's results
     (ws = white space only, prefix does not start with white space) + one add_line"""
     it = Interp(m, ctx)
@@ -63,11 +67,18 @@ def h_addline(m, ctx, nws, npre, n, ty, layout=None):
     if npre:
         from mirsym.core import t_in, t_not
         ctx.assume(t_not(t_in(prefix[0], frozenset([9, 10, 11, 12, 13, 32]))))
+    if prefix_layout is not None:
+        pl = list(prefix)
+        pl[prefix_layout[0]:prefix_layout[0]] = list(NONASCII[prefix_layout[1]])
+        prefix = tuple(pl)
     line = make_line(ctx, 'line', n, layout)
     enums = m.src.enums['DirectiveType']
     d = StructV('Directive', (StrV(ws), StrV(prefix), EnumV('DirectiveType', ty, enums.index(ty), ()), VecV((StrV(tuple(b'a0')),))))
     cell = it.alloc(d)
     fn = m.find_method('Directive', 'add_line')
+    ctx.notes['data'] = {'op': 'add_line', 'type': ty, 'ws_syms': [b if isinstance(b, int) else b[1] for b in ws],
+                         'prefix_syms': [b if isinstance(b, int) else b[1] for b in prefix],
+                         'line_syms': [b if isinstance(b, int) else b[1] for b in line]}        # for a panic inside add_line
     r = it.call_mir(fn, [RefV(cell), StrV(line)])
     after = directive_struct(it, it.load(cell))
     want = grammar.continuation(ctx, (ws, prefix, ty), line)
@@ -142,6 +153,23 @@ def jobs(tier):
     for pos in range(0, 5):
         js.append({'name': 'add_line:Run ws=1 pre=2 n=4+nbsp@%d' % pos, 'harness': (H, 'h_addline'),
                    'params': {'nws': 1, 'npre': 2, 'n': 4, 'ty': 'Run', 'layout': (pos, 'nbsp')}})
+    # lines with two `TXTPP#`: only the FIRST one on the line can start a directive
+    for n in ((6, 7) if tier == 'quick' else (6, 7, 8, 9)):
+        for pos in (0, 1):
+            js.append({'name': 'detect:TXTPP#@%d + %d free bytes' % (pos, n), 'harness': (H, 'h_detect'), 'params': {'n': n, 'layout': (pos, 'hash')},
+                       'split': 8})
+    for a, b in ((0, 0), (0, 1), (0, 2), (1, 3), (0, 4)):
+        js.append({'name': 'detect:two TXTPP# at %d,%d of 4 free bytes' % (a, b), 'harness': (H, 'h_detect'),
+                   'params': {'n': 4, 'layout': [(a, 'hash'), (b, 'hash')]}})
+        js.append({'name': 'detect:TXTPP#includes + TXTPP#run at %d,%d of 3 free bytes' % (a, min(b, 3)), 'harness': (H, 'h_detect'),
+                   'params': {'n': 3, 'layout': [(min(a, 3), 'hash_includes'), (min(b, 3), 'hash_run')]}})
+    # prefixes with a multi-byte character: "as many spaces as the prefix is long" is its length in bytes, consistently
+    for key in ('e_acute', 'ideographic_space'):
+        for ppos in (0, 1):
+            for n in ((2, 3, 4, 5) if tier == 'quick' else (1, 2, 3, 4, 5, 6, 7)):
+                for ty in ('Run', 'Write'):
+                    js.append({'name': 'add_line:%s prefix with %s@%d n=%d' % (ty, key, ppos, n), 'harness': (H, 'h_addline'),
+                               'params': {'nws': 0, 'npre': 1, 'n': n, 'ty': ty, 'prefix_layout': (ppos, key)}})
     pairs = [(8, 3), (9, 4)] if tier == 'quick' else [(8, 3), (9, 4), (10, 5), (11, 4)]
     for n1, n2 in pairs:
         js.append({'name': 'pair:%d,%d' % (n1, n2), 'harness': (H, 'h_pair'), 'params': {'n1': n1, 'n2': n2}, 'split': 16})
